@@ -10,7 +10,7 @@ from . import common
 
 ID = 'C06'
 LEVEL = 'fault_enumeration'
-RUNS = {'quick': 400, 'thorough': 2400}
+RUNS = {'quick': 320, 'thorough': 1600}
 CHUNK = 4
 RECHECK_MOD = 53
 PROBES = ['cut_in_header', 'cut_in_threadmap', 'cut_in_stackshot_scan', 'cut_in_chunkhdr', 'cut_in_record',
